@@ -658,12 +658,17 @@ type c13Parser struct {
 
 func c13NewParser() *c13Parser {
 	c := &c13Parser{}
-	c.stats = make([]*agent.BuiltInItemValue, len(c13StatNames))
-	for i := range c.stats {
-		c.stats[i] = &agent.BuiltInItemValue{}
+	c.stats = c13WireParser(&c.p)
+	return c
+}
+
+// c13WireParser gives a real parser (the one embedded in c13Parser, or the one embedded in a receiver.TCP) observable
+// statistics sinks, in c13StatNames order.
+func c13WireParser(p *parser) []*agent.BuiltInItemValue {
+	s := make([]*agent.BuiltInItemValue, len(c13StatNames))
+	for i := range s {
+		s[i] = &agent.BuiltInItemValue{}
 	}
-	s := c.stats
-	p := &c.p
 	p.network = "udp"
 	p.batchSizeTLOK, p.batchSizeTLErr, p.batchSizeMsgPackOK, p.batchSizeMsgPackErr = s[0], s[1], s[2], s[3]
 	p.batchSizeJSONOK, p.batchSizeJSONErr, p.batchSizeProtobufOK, p.batchSizeProtobufErr = s[4], s[5], s[6], s[7]
@@ -673,7 +678,7 @@ func c13NewParser() *c13Parser {
 	p.packetSizeRPCOK, p.packetSizeRPCErr = s[18], s[19]
 	p.packetSizeConnect, p.packetSizeFramingError, p.packetSizeNetworkError, p.packetSizeDisconnect = s[20], s[21], s[22], s[23]
 	p.packetSizeLegacyErr, p.packetSizeEmptyErr = s[24], s[25]
-	return c
+	return s
 }
 
 type c13Obs struct {
@@ -1297,7 +1302,7 @@ func TestVerifC13(t *testing.T) {
 		t.Skip("child mode")
 	}
 	rep := mc.NewReport("C13")
-	rep.Rule = "A: every 1-metric batch over the full field alphabet (3 names x 3 tag sets x counter/ts {absent,0,value} x values/uniques/histogram {absent,empty,1,2 elements}) and every ordered pair over the reduced alphabet, each in 7 encodings (TL, JSON, MessagePack compact and wide, Protobuf via generated pb, hand-rolled packed, hand-rolled unpacked), each parsed on dirty and on fresh buffers; A2: every ordered pair of 91 packets (13 batches with zero-valued counter/ts/value/unique/centroid components, empty strings and differing element counts x 7 encodings) parsed one after the other through one reused batch object as in the receive loops, the second must decode to its own reference; A3: every ordered pair (and every ordered triple of a reduced set; thorough: every triple) of those packets in 10 spellings (the 7 plus MessagePack/JSON/Protobuf with the fields in the opposite order) parsed in place in ONE reused receive buffer (layouts: UDP datagram at offset 0, TCP frame behind its length prefix, TCP frames arriving together) through one reused batch object, every packet must decode to its own reference; B: every byte string up to length L over all 256 bytes and up to length M over 40 format-relevant bytes, plus every truncation and every single-byte substitution (11 representative bytes; MessagePack-wide: truncations only) of valid encodings; C: 32-bit-length header injection into MessagePack encodings in a memory-limited child process. Non-trivial = batch with at least one optional field or tag (presence logic exercised) / non-empty arbitrary string / mutated packet that differs from the valid one"
+	rep.Rule = "A: every 1-metric batch over the full field alphabet (3 names x 3 tag sets x counter/ts {absent,0,value} x values/uniques/histogram {absent,empty,1,2 elements}) and every ordered pair over the reduced alphabet, each in 7 encodings (TL, JSON, MessagePack compact and wide, Protobuf via generated pb, hand-rolled packed, hand-rolled unpacked), each parsed on dirty and on fresh buffers; A2: every ordered pair of 91 packets (13 batches with zero-valued counter/ts/value/unique/centroid components, empty strings and differing element counts x 7 encodings) parsed one after the other through one reused batch object as in the receive loops, the second must decode to its own reference; A3: every ordered pair (and every ordered triple of a reduced set; thorough: every triple) of those packets in 10 spellings (the 7 plus MessagePack/JSON/Protobuf with the fields in the opposite order) parsed in place in ONE reused receive buffer (layouts: UDP datagram at offset 0, TCP frame behind its length prefix, TCP frames arriving together) through one reused batch object, every packet must decode to its own reference; B: every byte string up to length L over all 256 bytes and up to length M over 40 format-relevant bytes, plus every truncation and every single-byte substitution (11 representative bytes; MessagePack-wide: truncations only) of valid encodings; C: 32-bit-length header injection into MessagePack encodings in a memory-limited child process; D: every stream of 1..2 (thorough ..3) frames over a frame alphabet around the framing constants (declared length {0, 1, valid packet, max-1, max, max+1..max+5, 2*max, 2^20, 2^31-1, 2^31, 2^32-1} x delivered bytes {none, 1, one short, exact, around the receive-buffer size} x body {valid packet+padding, ff, 00}) x 6 delivery plans through the real TCP.receiveLoop over a scripted net.Conn: no 3 consecutive reads without progress, callbacks equal to a fresh parser's on every frame of an independent reference split, refused iff a declared length exceeds MaxTCPFrameBody. Non-trivial = batch with at least one optional field or tag (presence logic exercised) / non-empty arbitrary string / mutated packet that differs from the valid one / stream with a declared length within 8 of the maximum"
 	quick := !mc.Thorough()
 	maxAll := mc.Pick(2, 3)
 	maxReduced := mc.Pick(3, 4)
@@ -1365,6 +1370,10 @@ func TestVerifC13(t *testing.T) {
 	// ---- Part A3: packet sequences through one reused batch object AND one reused receive buffer (verif_c13_recvbuf_test.go)
 	recvUnits, nRecvSeq, nRecvPackets := c13RecvUnits(rep)
 	units = append(units, recvUnits...)
+
+	// ---- Part D: stream framing - the real TCP.receiveLoop over a scripted connection (verif_c13_framing_test.go)
+	var framingStats []c13FramingStats
+	units = append(units, c13FramingUnits(rep, &framingStats)...)
 
 	// ---- Part B.1: all byte strings
 	var arbitrary int64
@@ -1562,8 +1571,18 @@ func TestVerifC13(t *testing.T) {
 		}
 	}
 
+	var framing c13FramingStats
+	for _, st := range framingStats {
+		framing.streams += st.streams
+		framing.refFrames += st.refFrames
+		framing.refused += st.refused
+		framing.incompleteTail += st.incompleteTail
+		framing.boundary += st.boundary
+	}
 	execs := pool.parses + childDone + childCrashed
-	rep.AddCounts(execs, execs, batches*7+nPairs+nRecvSeq+arbitrary+pool.mutated+int64(len(jobs)), ntBatches*7+nPairs+nRecvSeq+(arbitrary-1)+pool.mutated+int64(len(jobs)))
+	rep.AddCounts(execs, execs, batches*7+nPairs+nRecvSeq+arbitrary+pool.mutated+int64(len(jobs))+framing.streams, ntBatches*7+nPairs+nRecvSeq+(arbitrary-1)+pool.mutated+int64(len(jobs))+framing.boundary)
+	rep.Parts["tcp_framing"] = map[string]any{"streams_through_receiveLoop": framing.streams, "reference_frames": framing.refFrames, "streams_the_reference_refuses": framing.refused,
+		"streams_ending_in_an_incomplete_frame": framing.incompleteTail, "streams_with_a_declared_length_within_8_of_the_maximum": framing.boundary}
 	rep.Parts["packet_pairs"] = map[string]any{"packets": len(pairPk), "ordered_pairs": nPairs}
 	rep.Parts["receive_buffer_sequences"] = map[string]any{"sequences": nRecvSeq, "packets_parsed_in_place": nRecvPackets, "layouts": c13RecvLayouts}
 	rep.Parts["equivalence"] = map[string]any{"batches": batches, "encodings_per_batch": 7}
